@@ -1319,13 +1319,15 @@ namespace awkward {
     }
     else if (posaxis == depth + 1) {
       int64_t min = target;
-      struct Error err1 = kernel::ListArray_min_range<T>(
-        kernel::lib::cpu,   // DERIVE
-        &min,
-        starts_.data(),
-        stops_.data(),
-        starts_.length());
-      util::handle_error(err1, classname(), identities_.get());
+      if (starts_.length() != 0) {
+        struct Error err1 = kernel::ListArray_min_range<T>(
+          kernel::lib::cpu,   // DERIVE
+          &min,
+          starts_.data(),
+          stops_.data(),
+          starts_.length());
+        util::handle_error(err1, classname(), identities_.get());
+      }
       if (target < min) {
         return shallow_copy();
       }
